@@ -22,6 +22,61 @@ func init() {
 
 func c13() []*Ob {
 	return []*Ob{
+		{Prop: "C13", ID: "C13.10", Engine: "PAIR(parse/validate)", Floor: 2,
+			Desc: "each end of a numeric range is validated itself: in NewRangeNumberSearch every number obtained from strconv.ParseFloat is the one handed to the not-a-number/infinity test (the parsed value, or the field it was stored in) before the searcher is returned — testing the lower end twice lets `[* to Inf]` or `[1 to NaN]` be evaluated numerically instead of falling back to the text range: text tokens the range denotes are missed",
+			Check: func(c *Ctx) {
+				fn := c.Fn("pattern.NewRangeNumberSearch")
+				if fn == nil {
+					return
+				}
+				parse := Callee("strconv.ParseFloat")
+				test := Callee("pattern.isNaNOrInf")
+				tests := c.P.FindLifted(fn, CallSel(test))
+				n := 0
+				for _, pc := range CallsIn(fn, parse) {
+					v := ResultN(pc, 0)
+					if v == nil {
+						continue
+					}
+					n++
+					// where the parsed value is kept
+					var fields []string
+					typ := ""
+					if v.Referrers() != nil {
+						for _, r := range *v.Referrers() {
+							if st, ok := r.(*ssa.Store); ok && st.Val == v {
+								if t, f, _, okf := FieldOf(st.Addr); okf {
+									typ = t
+									fields = append(fields, f)
+								}
+							}
+						}
+					}
+					ok := false
+					for _, t := range tests {
+						if t.In.Parent() != fn || !Dominates(pc.(ssa.Instruction), t.In) {
+							continue
+						}
+						a := Arg(t.Call(), 0)
+						if a == v {
+							ok = true
+						}
+						for _, f := range fields {
+							if ValueIsField(a, typ, f) {
+								ok = true
+							}
+						}
+					}
+					if ok {
+						c.Site(pc.Pos(), "the parsed bound is the one tested for NaN/Inf")
+					} else {
+						c.Violation("pair:NewRangeNumberSearch:validate-own-bound:"+strings.Join(fields, ","), pc.Pos(), "a bound parsed with strconv.ParseFloat (kept in %v) is not the value that is tested for NaN/Inf afterwards: a non-finite end of the range is taken for a number", fields)
+					}
+				}
+				if n == 0 {
+					c.Undecided("pair:NewRangeNumberSearch:noparse", fn.Pos(), "NewRangeNumberSearch no longer parses its bounds with strconv.ParseFloat")
+				}
+			}},
 		{Prop: "C13", ID: "C13.1", Engine: "DOM+OWN", Floor: 3,
 			Desc: "narrow only what is sorted: every Narrow call is dominated by tp.Ordered() == true; token.Provider.Ordered returns the constant true and frac.activeTokenProvider.Ordered the constant false; the narrowed flags are written only by the Narrow methods",
 			Check: func(c *Ctx) {
